@@ -8,7 +8,7 @@ PROPERTY = 'C09'
 INSTRUMENT = dict(prefixes=('mesonbuild.',), exact=('mesonbuild', 'configparser'))          # recorded-values executes the stdlib parser of cmd_line.txt symbolically
 LEVEL = 'model_checking'
 FILES = ['mesonbuild/coredata.py', 'mesonbuild/cmdline.py', 'mesonbuild/build.py', 'mesonbuild/utils/universal.py', 'mesonbuild/environment.py', 'mesonbuild/msetup.py', 'mesonbuild/mconf.py']
-ENCODED = ['coredata.save (copy to .prev, write temp, flush, fsync, os.replace) / coredata.load', 'mesonlib.pickle_load (corrupt file -> MesonException)',
+ENCODED = ['cmdline.write_cmd_line_file / update_cmd_line_file / read_cmd_line_file with configparser executed symbolically (recorded-values)', 'coredata.save (copy to .prev, write temp, flush, fsync, os.replace) / coredata.load', 'mesonlib.pickle_load (corrupt file -> MesonException)',
            'cmdline.write_cmd_line_file / update_cmd_line_file / read_cmd_line_file (configparser from the stdlib, real)', 'build.save',
            'environment.Environment.__init__ (load coredata; on a corrupt file regenerate from cmd_line.txt)',
            'the rollback after a failed run (msetup.MesonApp._generate, except-branch: 3 lines mirrored in the harness around the real coredata.save / load)', 'the order of the persistence calls of mconf.run_impl (update_cmd_line_file; Conf.save) and of msetup.MesonApp._generate (dump_coredata; backend temp+rename; build.save; '
